@@ -19,7 +19,12 @@ func init() {
 }
 
 // espace special CSS char
-func escape(s string) string { return specialCharReplacer.Replace(s) }
+func escape(s string) string {
+	if s != "" && '0' <= s[0] && s[0] <= '9' {
+		return fmt.Sprintf("\\%x ", s[0]) + specialCharReplacer.Replace(s[1:])
+	}
+	return specialCharReplacer.Replace(s)
+}
 
 func (c tagSelector) String() string {
 	if c.tag != 0 {
@@ -41,7 +46,7 @@ func (c attrSelector) String() string {
 	if c.operation == "#=" {
 		val = c.regexp.String()
 	} else if c.operation != "" {
-		val = fmt.Sprintf(`"%s"`, val)
+		val = `"` + strings.NewReplacer(`\`, `\\`, `"`, `\"`, "\n", `\a `).Replace(val) + `"`
 	}
 
 	ignoreCase := ""
